@@ -1,7 +1,7 @@
 (* Sheet/ColsProofs.v — the column-descriptor surgery keeps layouts well formed and changes
-   exactly one (column, attribute) pair, except in three precisely delimited situations
-   (F23): set_column_style inside a multi-column descriptor, set_column_style on a hidden
-   column, delete_column_style on a hidden column. *)
+   exactly one (column, attribute) pair.  (The three situations in which the code used to break
+   this — F23a/b/c — were repaired in /repo by acf9a86, ae7cffd, 973383c; the model follows the
+   repaired code and the theorems are at full strength.) *)
 From IronCalc Require Import Base.Prelude Sheet.Cols.
 
 Ltac zb := repeat match goal with
@@ -96,28 +96,21 @@ Proof.
       * cbn [find_col]. destruct (covers c j'); [reflexivity | exact IH].
 Qed.
 
-(* [place]: the column itself *)
-Definition placed_style (j : Z) (given : option Z) (cs : cols) : option Z :=
-  match reached j cs with
-  | Some c => if (c_min c =? j) && (c_max c =? j) then given else c_style c
-  | None => given
-  end.
-
+(* [place]: the column itself reads exactly what was passed in *)
 Lemma find_place_same j nc cs :
   c_min nc = j -> c_max nc = j ->
-  exists c', find_col j (place j nc cs) = Some c' /\
-    view c' = (c_width nc, c_custom nc, c_hidden nc, placed_style j (c_style nc) cs).
+  exists c', find_col j (place j nc cs) = Some c' /\ view c' = view nc.
 Proof.
-  intros Hmin Hmax. unfold placed_style.
+  intros Hmin Hmax.
   assert (covers nc j = true) as Hnc by (apply covers_iff; lia).
-  induction cs as [|c r IH]; cbn [place reached].
+  induction cs as [|c r IH]; cbn [place].
   - exists nc. cbn [find_col]. rewrite Hnc. split; reflexivity.
   - destruct (covers c j) eqn:Ec.
     + pose proof Ec as Ec'. apply covers_iff in Ec'.
       destruct ((c_min c =? j) && (c_max c =? j)) eqn:Ee.
       * eexists. cbn [find_col]. unfold covers at 1. cbn [c_min c_max].
         unfold covers in Ec. rewrite Ec. split; reflexivity.
-      * eexists (mkCol j j (c_width nc) (c_custom nc) (c_hidden nc) (c_style c)).
+      * eexists (mkCol j j (c_width nc) (c_custom nc) (c_hidden nc) (c_style nc)).
         split; [|reflexivity].
         destruct (j =? c_min c) eqn:E1; destruct (j =? c_max c) eqn:E2; zb;
           cbn [app find_col]; unfold covers; cbn [c_min c_max];
@@ -149,6 +142,7 @@ Proof.
       * cbn [wf_from]. repeat split; try lia. apply IH; [exact H4 | lia].
 Qed.
 
+
 (* ------------------------------------------------------------------------------------------ *)
 (* [unstyle]                                                                                    *)
 
@@ -159,10 +153,10 @@ Proof.
   induction cs as [|c r IH]; cbn [unstyle]; [reflexivity|].
   destruct (covers c j) eqn:Ec.
   - apply covers_iff in Ec.
-    destruct (j =? c_min c) eqn:E1; destruct (j =? c_max c) eqn:E2; destruct (c_custom c) eqn:Ecu; zb;
+    destruct (j =? c_min c) eqn:E1; destruct (j =? c_max c) eqn:E2;
+      destruct (c_custom c || c_hidden c) eqn:Ek; zb;
       cbn [app find_col]; unfold covers; cbn [c_min c_max];
-      zcases; try reflexivity; try lia;
-      cbn [option_map]; unfold view; cbn [c_width c_custom c_hidden c_style]; rewrite Ecu; reflexivity.
+      zcases; try reflexivity; try lia.
   - destruct (j <? c_min c) eqn:El; [reflexivity|].
     cbn [find_col]. destruct (covers c j'); [reflexivity | exact IH].
 Qed.
@@ -171,7 +165,8 @@ Lemma find_unstyle_same lo j cs :
   wf_from lo cs ->
   find_col j (unstyle j cs) =
   match find_col j cs with
-  | Some c => if c_custom c then Some (mkCol j j (c_width c) (c_custom c) false None) else None
+  | Some c => if c_custom c || c_hidden c
+              then Some (mkCol j j (c_width c) (c_custom c) (c_hidden c) None) else None
   | None => None
   end.
 Proof.
@@ -180,7 +175,8 @@ Proof.
   destruct (covers c j) eqn:Ec.
   - apply covers_iff in Ec.
     assert (find_col j r = None) as Hr by (apply (find_none_below (c_max c)); [exact H4 | lia]).
-    destruct (j =? c_min c) eqn:E1; destruct (j =? c_max c) eqn:E2; destruct (c_custom c) eqn:Ecu; zb;
+    destruct (j =? c_min c) eqn:E1; destruct (j =? c_max c) eqn:E2;
+      destruct (c_custom c || c_hidden c) eqn:Ek; zb;
       cbn [app find_col]; unfold covers; cbn [c_min c_max];
       zcases; try reflexivity; try lia; try exact Hr.
   - pose proof Ec as Ec'. apply covers_false_iff in Ec'.
@@ -196,11 +192,11 @@ Proof.
   cbn [wf_from] in Hwf. destruct Hwf as (H1 & H2 & H3 & H4).
   destruct (covers c j) eqn:Ec.
   - apply covers_iff in Ec.
-    assert (forall lo', lo' <= c_max c -> wf_from lo' r -> True) as _ by (intros; exact I).
     assert (Hr : forall lo', lo' <= c_max c -> wf_from lo' r).
     { intros lo' Hle. destruct r as [|d r']; [exact I|]. cbn [wf_from] in *.
       destruct H4 as (G1 & G2 & G3 & G4). repeat split; try lia. exact G4. }
-    destruct (j =? c_min c) eqn:E1; destruct (j =? c_max c) eqn:E2; destruct (c_custom c) eqn:Ecu; zb;
+    destruct (j =? c_min c) eqn:E1; destruct (j =? c_max c) eqn:E2;
+      destruct (c_custom c || c_hidden c) eqn:Ek; zb;
       cbn [app wf_from c_min c_max]; repeat split; try lia; try exact H4;
       try (apply Hr; lia).
   - destruct (j <? c_min c) eqn:El.
@@ -226,21 +222,6 @@ Lemma shown_eq up cs j :
   shown_width_at up cs j = if hidden_at cs j then 0 else width_at up cs j.
 Proof.
   unfold shown_width_at, hidden_at, width_at. destruct (find_col j cs) as [c|]; reflexivity.
-Qed.
-
-Lemma placed_style_self j cs : placed_style j (style_at cs j) cs = style_at cs j.
-Proof.
-  unfold placed_style. destruct (reached j cs) as [c|] eqn:E; [|reflexivity].
-  apply reached_find in E. unfold style_at. rewrite E.
-  destruct ((c_min c =? j) && (c_max c =? j)); reflexivity.
-Qed.
-
-Lemma placed_style_wf j s cs :
-  wf cs -> placed_style j (Some s) cs = if spans cs j then style_at cs j else Some s.
-Proof.
-  intro Hwf. unfold placed_style, spans, style_at. rewrite (reached_find_wf 0 cs j Hwf).
-  destruct (find_col j cs) as [c|]; [|reflexivity].
-  destruct ((c_min c =? j) && (c_max c =? j)); reflexivity.
 Qed.
 
 Section Ops.
@@ -284,16 +265,16 @@ Proof.
   apply view_at_place_other; [exact Hne | reflexivity | reflexivity].
 Qed.
 
+(* the column reads exactly the width, hidden flag and style that were passed in *)
 Lemma scwas_same cs j w h s cs' :
   set_column_width_and_style down cs j w h s = Ok cs' ->
-  width_at up cs' j = w /\ hidden_at cs' j = h /\ style_at cs' j = placed_style j s cs /\
-  shown_width_at up cs' j = (if h then 0 else w).
+  width_at up cs' j = w /\ hidden_at cs' j = h /\ style_at cs' j = s.
 Proof.
   intro H. apply scwas_ok in H as (_ & _ & ->).
   destruct (find_place_same j (mkCol j j (down w) (negb (w =? DEFAULT_COLUMN_WIDTH)) h s) cs
               eq_refl eq_refl) as (c' & Hf & Hv).
-  cbn [c_width c_custom c_hidden c_style] in Hv. unfold view in Hv. injection Hv as V1 V2 V3 V4.
-  unfold width_at, hidden_at, style_at, shown_width_at. rewrite Hf, V1, V2, V3, V4.
+  unfold view in Hv. cbn [c_width c_custom c_hidden c_style] in Hv. injection Hv as V1 V2 V3 V4.
+  unfold width_at, hidden_at, style_at. rewrite Hf, V1, V2, V3, V4.
   rewrite width_norm. repeat split; reflexivity.
 Qed.
 
@@ -304,48 +285,21 @@ Proof.
   apply place_wf; [exact Hwf | lia | lia | reflexivity | reflexivity].
 Qed.
 
-(* ---- the four operations: what they return ------------------------------------------------- *)
-Lemma set_width_unfold cs j w :
-  set_column_width down cs j w =
-  if is_valid_column_number j
-  then set_column_width_and_style down cs j w (hidden_at cs j) (style_at cs j) else Err.
-Proof.
-  unfold set_column_width, get_column_style, is_column_hidden.
-  destruct (is_valid_column_number j); reflexivity.
-Qed.
-
-Lemma set_hidden_unfold cs j b :
-  set_column_hidden down up cs j b =
-  if is_valid_column_number j
-  then set_column_width_and_style down cs j (width_at up cs j) b (style_at cs j) else Err.
-Proof.
-  unfold set_column_hidden, get_column_style, get_actual_column_width.
-  destruct (is_valid_column_number j); reflexivity.
-Qed.
-
-Lemma set_style_unfold cs j s :
-  set_column_style down up cs j s =
-  if is_valid_column_number j
-  then set_column_width_and_style down cs j (shown_width_at up cs j) (hidden_at cs j) (Some s) else Err.
-Proof.
-  unfold set_column_style, get_column_width, is_column_hidden.
-  destruct (is_valid_column_number j); reflexivity.
-Qed.
-
-(* the call the operation boils down to *)
+(* ---- the four operations: what they boil down to --------------------------------------------- *)
 Definition core (cs : cols) (o : cop) : outcome cols :=
   match o with
   | SetWidth j w => set_column_width_and_style down cs j w (hidden_at cs j) (style_at cs j)
   | SetHidden j b => set_column_width_and_style down cs j (width_at up cs j) b (style_at cs j)
-  | SetStyle j s => set_column_width_and_style down cs j (shown_width_at up cs j) (hidden_at cs j) (Some s)
+  | SetStyle j s => set_column_width_and_style down cs j (width_at up cs j) (hidden_at cs j) (Some s)
   | DelStyle j => delete_column_style cs j
   end.
 
 Lemma apply_core cs o : apply_cop down up cs o = core cs o.
 Proof.
-  destruct o as [j w|j b|j s|j]; cbn [apply_cop core];
-    rewrite ?set_width_unfold, ?set_hidden_unfold, ?set_style_unfold; try reflexivity;
-    unfold set_column_width_and_style; destruct (is_valid_column_number j); reflexivity.
+  destruct o as [j w|j b|j s|j]; cbn [apply_cop core]; try reflexivity;
+    unfold set_column_width, set_column_hidden, set_column_style, get_column_style, is_column_hidden,
+      get_actual_column_width, set_column_width_and_style;
+    destruct (is_valid_column_number j); reflexivity.
 Qed.
 
 Lemma apply_ok_valid cs o cs' :
@@ -356,7 +310,7 @@ Proof.
   unfold delete_column_style in H. destruct (is_valid_column_number j); [reflexivity | discriminate].
 Qed.
 
-(* ---- FRAME, part 1: every other column keeps every attribute (no premise at all) ------------- *)
+(* ---- FRAME, part 1: every other column keeps every attribute (any layout, no premise) ---------- *)
 Theorem cop_other_columns cs o cs' j' :
   apply_cop down up cs o = Ok cs' -> j' <> cop_col o ->
   view_at cs' j' = view_at cs j'.
@@ -373,8 +327,7 @@ Theorem set_width_same cs j w cs' :
   width_at up cs' j = w /\ hidden_at cs' j = hidden_at cs j /\ style_at cs' j = style_at cs j.
 Proof.
   intro H. change (apply_cop down up cs (SetWidth j w) = Ok cs') in H. rewrite apply_core in H.
-  cbn [core] in H. apply scwas_same in H as (H1 & H2 & H3 & _).
-  rewrite placed_style_self in H3. repeat split; assumption.
+  cbn [core] in H. apply scwas_same in H. exact H.
 Qed.
 
 Theorem set_hidden_same cs j b cs' :
@@ -382,33 +335,27 @@ Theorem set_hidden_same cs j b cs' :
   hidden_at cs' j = b /\ width_at up cs' j = width_at up cs j /\ style_at cs' j = style_at cs j.
 Proof.
   intro H. change (apply_cop down up cs (SetHidden j b) = Ok cs') in H. rewrite apply_core in H.
-  cbn [core] in H. apply scwas_same in H as (H1 & H2 & H3 & _).
-  rewrite placed_style_self in H3. repeat split; assumption.
+  cbn [core] in H. apply scwas_same in H as (H1 & H2 & H3). repeat split; assumption.
 Qed.
 
-(* set_column_style as it is: the hidden flag is kept, the style is the descriptor's when the
-   column lies inside a wider descriptor, the width becomes the SHOWN width *)
 Theorem set_style_same cs j s cs' :
-  wf cs -> set_column_style down up cs j s = Ok cs' ->
-  hidden_at cs' j = hidden_at cs j /\
-  style_at cs' j = (if spans cs j then style_at cs j else Some s) /\
-  width_at up cs' j = (if hidden_at cs j then 0 else width_at up cs j).
+  set_column_style down up cs j s = Ok cs' ->
+  style_at cs' j = Some s /\ width_at up cs' j = width_at up cs j /\ hidden_at cs' j = hidden_at cs j.
 Proof.
-  intros Hwf H. change (apply_cop down up cs (SetStyle j s) = Ok cs') in H. rewrite apply_core in H.
-  cbn [core] in H. apply scwas_same in H as (H1 & H2 & H3 & _).
-  rewrite placed_style_wf in H3 by exact Hwf. rewrite shown_eq in H1. repeat split; assumption.
+  intro H. change (apply_cop down up cs (SetStyle j s) = Ok cs') in H. rewrite apply_core in H.
+  cbn [core] in H. apply scwas_same in H as (H1 & H2 & H3). repeat split; assumption.
 Qed.
 
-(* delete_column_style as it is: style None, width kept, hidden flag CLEARED *)
 Theorem del_style_same cs j cs' :
   wf cs -> delete_column_style cs j = Ok cs' ->
-  style_at cs' j = None /\ width_at up cs' j = width_at up cs j /\ hidden_at cs' j = false.
+  style_at cs' j = None /\ width_at up cs' j = width_at up cs j /\ hidden_at cs' j = hidden_at cs j.
 Proof.
   intros Hwf H. unfold delete_column_style in H.
   destruct (is_valid_column_number j); [|discriminate]. injection H as <-.
   unfold style_at, width_at, hidden_at. rewrite (find_unstyle_same 0 j cs Hwf).
   destruct (find_col j cs) as [c|]; [|repeat split; reflexivity].
-  destruct (c_custom c) eqn:Ecu; cbn [c_style c_custom c_width c_hidden]; repeat split; reflexivity.
+  destruct (c_custom c) eqn:Ecu; destruct (c_hidden c) eqn:Eh;
+    cbn [orb c_style c_custom c_width c_hidden]; repeat split; reflexivity.
 Qed.
 
 (* ---- well-formedness is preserved by every operation (reused by C27) ---------------------------- *)
@@ -441,24 +388,8 @@ Section History.
 Variables down up : Z -> Z.
 Hypothesis up_down : forall w, up (down w) = w.
 
-Definition agrees (cs : cols) (a : acols) : Prop :=
-  forall j, width_at up cs j = a_width a j /\ hidden_at cs j = a_hidden a j /\
-            style_at cs j = a_style a j.
-
-Lemma agrees_abs_of cs : agrees cs (abs_of (width_at up) cs).
+Lemma agrees_abs_of cs : agrees up cs (abs_of (width_at up) cs).
 Proof. intro j. cbn [abs_of a_width a_hidden a_style]. repeat split; reflexivity. Qed.
-
-Lemma oz_eqb_true a b : oz_eqb a b = true -> a = b.
-Proof.
-  destruct a as [x|], b as [y|]; cbn [oz_eqb]; intro H; try discriminate; [|reflexivity].
-  apply Z.eqb_eq in H. congruence.
-Qed.
-
-Lemma oz_eqb_false a b : oz_eqb a b = false -> a <> b.
-Proof.
-  destruct a as [x|], b as [y|]; cbn [oz_eqb]; intro H; try discriminate; try congruence.
-  apply Z.eqb_neq in H. congruence.
-Qed.
 
 Lemma upd_same {A} (f : Z -> A) j v : upd f j v j = v.
 Proof. unfold upd. rewrite Z.eqb_refl. reflexivity. Qed.
@@ -466,50 +397,32 @@ Proof. unfold upd. rewrite Z.eqb_refl. reflexivity. Qed.
 Lemma upd_other {A} (f : Z -> A) j v k : k <> j -> upd f j v k = f k.
 Proof. unfold upd. intro H. apply Z.eqb_neq in H. rewrite H. reflexivity. Qed.
 
-(* one step outside the defect class is simulated by the point update *)
+(* one step is simulated by the point update *)
 Theorem sim_step cs a o :
-  wf cs -> agrees cs a -> defect_cop up cs o = false ->
-  agrees (step_cop down up cs o) (abs_step a o).
+  wf cs -> agrees up cs a -> agrees up (step_cop down up cs o) (abs_step a o).
 Proof.
-  intros Hwf Hag Hnd. unfold step_cop.
+  intros Hwf Hag. unfold step_cop.
   destruct (apply_cop down up cs o) as [cs'| |] eqn:E.
   - (* the call succeeded *)
     pose proof (apply_ok_valid down up cs o cs' E) as Hv.
     intro k. destruct (Z.eq_dec k (cop_col o)) as [->|Hne].
-    + destruct o as [j w|j b|j s|j]; cbn [cop_col] in *; cbn [apply_cop] in E; cbn [abs_step].
-      * pose proof E as E'. change (apply_cop down up cs (SetWidth j w) = Ok cs') in E'.
-        rewrite apply_core in E'. cbn [core] in E'. apply scwas_ok in E' as (_ & Hw & _).
+    + pose proof E as E'. rewrite apply_core in E'.
+      destruct o as [j w|j b|j s|j]; cbn [cop_col] in *; cbn [apply_cop] in E; cbn [abs_step core] in *;
+        destruct (Hag j) as (G1 & G2 & G3).
+      * apply scwas_ok in E' as (_ & Hw & _).
         apply (set_width_same down up up_down) in E as (H1 & H2 & H3).
         rewrite Hv. assert (w <? 0 = false) as -> by (apply Z.ltb_ge; exact Hw).
-        cbn [andb negb a_width a_hidden a_style]. rewrite upd_same.
-        destruct (Hag j) as (_ & G2 & G3). repeat split; congruence.
-      * pose proof E as E'. change (apply_cop down up cs (SetHidden j b) = Ok cs') in E'.
-        rewrite apply_core in E'. cbn [core] in E'. apply scwas_ok in E' as (_ & Hw & _).
+        cbn [andb negb a_width a_hidden a_style]. rewrite upd_same. repeat split; congruence.
+      * apply scwas_ok in E' as (_ & Hw & _).
         apply (set_hidden_same down up up_down) in E as (H1 & H2 & H3).
-        destruct (Hag j) as (G1 & G2 & G3).
         rewrite Hv. assert (a_width a j <? 0 = false) as -> by (apply Z.ltb_ge; rewrite <- G1; exact Hw).
         cbn [andb negb a_width a_hidden a_style]. rewrite upd_same. repeat split; congruence.
-      * pose proof E as E'. change (apply_cop down up cs (SetStyle j s) = Ok cs') in E'.
-        rewrite apply_core in E'. cbn [core] in E'. apply scwas_ok in E' as (_ & Hw & _).
-        apply (set_style_same down up up_down cs j s cs' Hwf) in E as (H1 & H2 & H3).
-        destruct (Hag j) as (G1 & G2 & G3).
-        cbn [defect_cop] in Hnd. rewrite Hv in Hnd.
-        assert (shown_width_at up cs j <? 0 = false) as Hs by (apply Z.ltb_ge; exact Hw).
-        rewrite Hs in Hnd. cbn [andb negb] in Hnd. apply orb_false_iff in Hnd as (D1 & D2).
-        rewrite Hv. rewrite <- G1, <- G2. rewrite <- shown_eq, Hs.
-        cbn [andb negb a_width a_hidden a_style]. rewrite upd_same.
-        assert (style_at cs' j = Some s) as Hst.
-        { rewrite H2. destruct (spans cs j); [|reflexivity]. cbn [andb] in D1.
-          apply negb_false_iff in D1. apply oz_eqb_true in D1. exact D1. }
-        assert (width_at up cs' j = width_at up cs j) as Hwd.
-        { rewrite H3. destruct (hidden_at cs j); [|reflexivity]. cbn [andb] in D2.
-          apply negb_false_iff in D2. apply Z.eqb_eq in D2. congruence. }
-        repeat split; congruence.
+      * apply scwas_ok in E' as (_ & Hw & _).
+        apply (set_style_same down up up_down) in E as (H1 & H2 & H3).
+        rewrite Hv. assert (a_width a j <? 0 = false) as -> by (apply Z.ltb_ge; rewrite <- G1; exact Hw).
+        cbn [andb negb a_width a_hidden a_style]. rewrite upd_same. repeat split; congruence.
       * apply (del_style_same up cs j cs' Hwf) in E as (H1 & H2 & H3).
-        destruct (Hag j) as (G1 & G2 & G3).
-        cbn [defect_cop] in Hnd. rewrite Hv in Hnd. cbn [andb] in Hnd.
-        rewrite Hv. cbn [a_width a_hidden a_style]. rewrite upd_same.
-        repeat split; congruence.
+        rewrite Hv. cbn [a_width a_hidden a_style]. rewrite upd_same. repeat split; congruence.
     + (* another column *)
       pose proof (cop_other_columns down up cs o cs' k E Hne) as Hvw.
       apply (obs_of_view up) in Hvw as (H1 & H2 & H3 & _).
@@ -528,10 +441,9 @@ Proof.
     + destruct (scwas_err down cs j (width_at up cs j) b (style_at cs j)) as [(x & Hx)|(_ & [Hi|Hn])];
         [congruence | rewrite Hi; reflexivity |].
       destruct (Hag j) as (G1 & _). rewrite <- G1. apply Z.ltb_lt in Hn. rewrite Hn, andb_false_r. reflexivity.
-    + destruct (scwas_err down cs j (shown_width_at up cs j) (hidden_at cs j) (Some s)) as [(x & Hx)|(_ & [Hi|Hn])];
+    + destruct (scwas_err down cs j (width_at up cs j) (hidden_at cs j) (Some s)) as [(x & Hx)|(_ & [Hi|Hn])];
         [congruence | rewrite Hi; reflexivity |].
-      destruct (Hag j) as (G1 & G2 & _). rewrite <- G1, <- G2, <- shown_eq.
-      apply Z.ltb_lt in Hn. rewrite Hn, andb_false_r. reflexivity.
+      destruct (Hag j) as (G1 & _). rewrite <- G1. apply Z.ltb_lt in Hn. rewrite Hn, andb_false_r. reflexivity.
     + unfold delete_column_style in E. destruct (is_valid_column_number j); [discriminate | reflexivity].
   - (* no operation panics *)
     rewrite apply_core in E. exfalso.
@@ -541,53 +453,17 @@ Proof.
     unfold delete_column_style in E. destruct (is_valid_column_number j); discriminate.
 Qed.
 
-Theorem cols_history cs os :
-  wf cs -> clean_run down up cs os = true ->
-  agrees (run_cops down up cs os) (fold_left abs_step os (abs_of (width_at up) cs)).
+(* HISTORIES *)
+Theorem cols_history : cols_history_statement down up.
 Proof.
-  intros Hwf Hcl. pose proof (agrees_abs_of cs) as Hag. revert Hag. generalize (abs_of (width_at up) cs).
-  unfold run_cops. revert cs Hwf Hcl.
-  induction os as [|o r IH]; intros cs Hwf Hcl a Hag; cbn [fold_left]; [exact Hag|].
-  cbn [clean_run] in Hcl. apply andb_true_iff in Hcl as (Hd & Hcl). apply negb_true_iff in Hd.
-  apply IH; [apply step_cop_wf; exact Hwf | exact Hcl | apply sim_step; assumption].
-Qed.
-
-(* the class is tight: a step inside it does break the point-update reading *)
-Theorem defect_is_real cs o :
-  wf cs -> defect_cop up cs o = true ->
-  ~ agrees (step_cop down up cs o) (abs_step (abs_of (width_at up) cs) o).
-Proof.
-  intros Hwf Hd Hag. unfold step_cop in Hag.
-  destruct o as [j w|j b|j s|j]; cbn [defect_cop] in Hd; try discriminate.
-  - apply andb_true_iff in Hd as (Hd & Hcase). apply andb_true_iff in Hd as (Hv & Hs).
-    apply negb_true_iff in Hs. pose proof Hs as Hs'. apply Z.ltb_ge in Hs'.
-    destruct (apply_cop down up cs (SetStyle j s)) as [cs'| |] eqn:E.
-    + cbn [apply_cop] in E.
-      apply (set_style_same down up up_down cs j s cs' Hwf) in E as (H1 & H2 & H3).
-      destruct (Hag j) as (G1 & G2 & G3). cbn [abs_step abs_of a_width a_hidden a_style] in G1, G2, G3.
-      rewrite Hv, <- shown_eq, Hs in G1, G2, G3. cbn [andb negb a_width a_hidden a_style] in G1, G2, G3.
-      rewrite upd_same in G3.
-      apply orb_true_iff in Hcase as [Hc|Hc]; apply andb_true_iff in Hc as (C1 & C2);
-        apply negb_true_iff in C2.
-      * rewrite H2, C1 in G3. apply oz_eqb_false in C2. contradiction.
-      * rewrite H3, C1 in G1. apply Z.eqb_neq in C2. congruence.
-    + rewrite apply_core in E. cbn [core] in E.
-      destruct (scwas_err down cs j (shown_width_at up cs j) (hidden_at cs j) (Some s))
-        as [(x & Hx)|(_ & [Hi|Hn])]; [congruence | congruence | lia].
-    + rewrite apply_core in E. cbn [core] in E.
-      destruct (scwas_err down cs j (shown_width_at up cs j) (hidden_at cs j) (Some s))
-        as [(x & Hx)|(Hx & _)]; congruence.
-  - apply andb_true_iff in Hd as (Hv & Hh).
-    cbn [apply_cop] in Hag. unfold delete_column_style in Hag. rewrite Hv in Hag. cbn [negb] in Hag.
-    assert (E : delete_column_style cs j = Ok (unstyle j cs))
-      by (unfold delete_column_style; rewrite Hv; reflexivity).
-    apply (del_style_same up cs j _ Hwf) in E as (_ & _ & H3).
-    destruct (Hag j) as (_ & G2 & _). cbn [abs_step abs_of] in G2. rewrite Hv in G2.
-    cbn [a_hidden abs_of] in G2. congruence.
+  intros cs os Hwf. pose proof (agrees_abs_of cs) as Hag. revert Hag. generalize (abs_of (width_at up) cs).
+  unfold run_cops. revert cs Hwf.
+  induction os as [|o r IH]; intros cs Hwf a Hag; cbn [fold_left]; [exact Hag|].
+  apply IH; [apply step_cop_wf; exact Hwf | apply sim_step; assumption].
 Qed.
 
 (* ---- the property in its own words ------------------------------------------------------------ *)
-Lemma agrees_get cs a at' j : agrees cs a -> get up at' cs j = aget at' a j.
+Lemma agrees_get cs a at' j : agrees up cs a -> get up at' cs j = aget at' a j.
 Proof. intro H. destruct (H j) as (G1 & G2 & G3). destruct at'; cbn [get aget]; congruence. Qed.
 
 Lemma abs_step_frame a o at' j' :
@@ -601,7 +477,7 @@ Proof.
 Qed.
 
 Lemma abs_step_readback cs a o cs' :
-  agrees cs a -> apply_cop down up cs o = Ok cs' ->
+  agrees up cs a -> apply_cop down up cs o = Ok cs' ->
   aget (cop_attr o) (abs_step a o) (cop_col o) = cop_val o.
 Proof.
   intros Hag E. pose proof (apply_ok_valid down up cs o cs' E) as Hv.
@@ -614,30 +490,26 @@ Proof.
   - apply scwas_ok in E as (_ & Hw & _). rewrite Hv.
     assert (a_width a j <? 0 = false) as -> by (apply Z.ltb_ge; rewrite <- G1; exact Hw).
     cbn [andb negb aget a_hidden]. rewrite upd_same. reflexivity.
-  - apply scwas_ok in E as (_ & Hw & _). rewrite Hv. rewrite <- G1, <- G2, <- shown_eq.
-    assert (shown_width_at up cs j <? 0 = false) as -> by (apply Z.ltb_ge; exact Hw).
+  - apply scwas_ok in E as (_ & Hw & _). rewrite Hv.
+    assert (a_width a j <? 0 = false) as -> by (apply Z.ltb_ge; rewrite <- G1; exact Hw).
     cbn [andb negb aget a_style]. rewrite upd_same. reflexivity.
   - rewrite Hv. cbn [aget a_style]. rewrite upd_same. reflexivity.
 Qed.
 
 (* FRAME: every other (column, attribute) pair keeps its value — also when the call is refused *)
-Theorem cols_frame cs o j' at' :
-  wf cs -> defect_cop up cs o = false -> (cop_col o, cop_attr o) <> (j', at') ->
-  get up at' (step_cop down up cs o) j' = get up at' cs j'.
+Theorem cols_frame : cols_frame_statement down up.
 Proof.
-  intros Hwf Hd Hne.
-  pose proof (sim_step cs _ o Hwf (agrees_abs_of cs) Hd) as Hag.
+  intros cs o j' at' Hwf Hne.
+  pose proof (sim_step cs _ o Hwf (agrees_abs_of cs)) as Hag.
   rewrite (agrees_get _ _ at' j' Hag), abs_step_frame by exact Hne.
   symmetry. apply agrees_get. apply agrees_abs_of.
 Qed.
 
 (* READ-BACK: the pair that was set has the value that was set *)
-Theorem cols_readback cs o cs' :
-  wf cs -> defect_cop up cs o = false -> apply_cop down up cs o = Ok cs' ->
-  get up (cop_attr o) cs' (cop_col o) = cop_val o.
+Theorem cols_readback : cols_readback_statement down up.
 Proof.
-  intros Hwf Hd E.
-  pose proof (sim_step cs _ o Hwf (agrees_abs_of cs) Hd) as Hag.
+  intros cs o cs' Hwf E.
+  pose proof (sim_step cs _ o Hwf (agrees_abs_of cs)) as Hag.
   unfold step_cop in Hag. rewrite E in Hag.
   rewrite (agrees_get _ _ _ _ Hag). eapply abs_step_readback; [apply agrees_abs_of | exact E].
 Qed.
@@ -645,8 +517,6 @@ Qed.
 End History.
 
 (* ------------------------------------------------------------------------------------------ *)
-(* the three defects, on the faithful model, with the identity as width scaling                 *)
-
 Lemma wf_b_sound lo cs : wf_from_b lo cs = true -> wf_from lo cs.
 Proof.
   revert lo; induction cs as [|c r IH]; intros lo H; cbn [wf_from_b wf_from] in *; [exact I|].
@@ -655,81 +525,38 @@ Qed.
 
 Definition idz (z : Z) : Z := z.
 
-(* (a) a style set on a column inside a multi-column descriptor is dropped *)
-Lemma style_in_range_refuted :
-  exists cs j s cs', wf cs /\ set_column_style idz idz cs j s = Ok cs' /\
-    style_at cs' j <> Some s /\ defect_cop idz cs (SetStyle j s) = true.
-Proof.
-  exists [mkCol 2 5 5 true false None], 3, 7. eexists.
-  split; [apply wf_b_sound; vm_compute; reflexivity|].
-  split; [vm_compute; reflexivity|]. split; [vm_compute; discriminate | vm_compute; reflexivity].
-Qed.
+(* the three former witnesses of F23a/b/c now satisfy the property (regression examples) *)
+Example former_witnesses_pass :
+  (* a: style set inside a multi-column descriptor *)
+  (exists cs', set_column_style idz idz [mkCol 2 5 5 true false None] 3 7 = Ok cs' /\
+               style_at cs' 3 = Some 7 /\ style_at cs' 2 = None /\ style_at cs' 4 = None) /\
+  (* b: style set on a hidden column keeps its width *)
+  (exists cs', set_column_style idz idz [mkCol 3 3 45 true true None] 3 7 = Ok cs' /\
+               width_at idz cs' 3 = 45 /\ hidden_at cs' 3 = true) /\
+  (* c: deleting the style of a hidden column keeps it hidden, with or without custom width *)
+  (exists cs', delete_column_style [mkCol 3 3 45 true true (Some 7)] 3 = Ok cs' /\
+               hidden_at cs' 3 = true /\ style_at cs' 3 = None) /\
+  (exists cs', delete_column_style [mkCol 2 4 5 false true (Some 7)] 3 = Ok cs' /\
+               hidden_at cs' 3 = true /\ style_at cs' 3 = None /\ style_at cs' 2 = Some 7).
+Proof. repeat split; eexists; repeat split; vm_compute; reflexivity. Qed.
 
-(* (b) hide, set a style: the width is now 0 (and stays 0 after unhiding) *)
-Lemma hidden_width_refuted :
-  exists cs j s cs' cs'', wf cs /\ set_column_style idz idz cs j s = Ok cs' /\
-    set_column_hidden idz idz cs' j false = Ok cs'' /\
-    width_at idz cs j = 45 /\ width_at idz cs' j = 0 /\ width_at idz cs'' j = 0 /\
-    defect_cop idz cs (SetStyle j s) = true.
-Proof.
-  exists [mkCol 3 3 45 true true None], 3, 7. do 2 eexists.
-  split; [apply wf_b_sound; vm_compute; reflexivity|].
-  split; [vm_compute; reflexivity|]. split; [vm_compute; reflexivity|].
-  repeat split; vm_compute; reflexivity.
-Qed.
-
-(* (c) deleting the style of a hidden column makes it visible *)
-Lemma delete_unhides_refuted :
-  exists cs j cs', wf cs /\ delete_column_style cs j = Ok cs' /\
-    hidden_at cs j = true /\ hidden_at cs' j = false /\ defect_cop idz cs (DelStyle j) = true.
-Proof.
-  exists [mkCol 3 3 45 true true (Some 7)], 3. eexists.
-  split; [apply wf_b_sound; vm_compute; reflexivity|].
-  split; [vm_compute; reflexivity|]. repeat split; vm_compute; reflexivity.
-Qed.
-
-Theorem cols_frame_statement_refuted : ~ cols_frame_statement idz idz.
-Proof.
-  intro H.
-  assert (Hwf : wf [mkCol 3 3 45 true true (Some 7)]) by (apply wf_b_sound; vm_compute; reflexivity).
-  specialize (H _ (DelStyle 3) 3 Hidden Hwf ltac:(discriminate)).
-  vm_compute in H. discriminate.
-Qed.
-
-Theorem cols_readback_statement_refuted : ~ cols_readback_statement idz idz.
-Proof.
-  intro H.
-  assert (Hwf : wf [mkCol 2 5 5 true false None]) by (apply wf_b_sound; vm_compute; reflexivity).
-  specialize (H _ (SetStyle 3 7) _ Hwf eq_refl).
-  vm_compute in H. discriminate.
-Qed.
-
-(* non-vacuity of the partial theorems: a clean history exists and the premises are satisfiable *)
-Example clean_history_example :
+(* non-vacuity: a history over a layout with a 4-column descriptor and a descriptor at 16384 *)
+Example history_example :
   let cs := [mkCol 2 5 5 true false (Some 1); mkCol 16384 16384 20 true true None] in
-  let os := [SetWidth 3 45; SetHidden 4 true; SetStyle 9 2; DelStyle 3; SetHidden 16384 false; SetStyle 3 1] in
-  wf_b cs = true /\ clean_run idz idz cs os = true /\
-    run_cops idz idz cs os =
-    [mkCol 2 2 5 true false (Some 1); mkCol 3 3 45 true false (Some 1); mkCol 4 4 5 true true (Some 1);
+  let os := [SetWidth 3 45; SetHidden 4 true; SetStyle 9 2; DelStyle 3; SetHidden 16384 false; SetStyle 3 1;
+             SetStyle 4 2; DelStyle 4] in
+  wf_b cs = true /\
+  run_cops idz idz cs os =
+    [mkCol 2 2 5 true false (Some 1); mkCol 3 3 45 true false (Some 1); mkCol 4 4 5 true true None;
      mkCol 5 5 5 true false (Some 1); mkCol 9 9 90 false false (Some 2);
      mkCol 16384 16384 20 true false None].
-Proof. vm_compute. repeat split; reflexivity. Qed.
+Proof. vm_compute. split; reflexivity. Qed.
 
-(* corollaries in the property's vocabulary *)
+(* corollary in the property's vocabulary *)
 Theorem cols_other_columns_get down up cs o cs' j' at' :
   apply_cop down up cs o = Ok cs' -> j' <> cop_col o -> get up at' cs' j' = get up at' cs j'.
 Proof.
   intros E Hne. pose proof (cop_other_columns down up cs o cs' j' E Hne) as Hv.
   apply (obs_of_view up) in Hv as (H1 & H2 & H3 & _).
   destruct at'; cbn [get]; congruence.
-Qed.
-
-(* width and hidden operations are never in the defect class *)
-Theorem cols_frame_width_hidden down up (up_down : forall w, up (down w) = w) cs o j' at' :
-  wf cs -> (match o with SetWidth _ _ | SetHidden _ _ => True | _ => False end) ->
-  (cop_col o, cop_attr o) <> (j', at') ->
-  get up at' (step_cop down up cs o) j' = get up at' cs j'.
-Proof.
-  intros Hwf Ho Hne. apply cols_frame; try assumption.
-  destruct o; try contradiction; reflexivity.
 Qed.
